@@ -6,6 +6,13 @@ whose formulas are the definitions generated from float_cmp.cc (`Gen/C17.lean`).
 tolerance of the style (`e·max(|a|,|b|)`, `e·min(|a|,|b|)`, `e`), `IsTrunc tr` states that `tr` is the C++ conversion
 `I(val)`.  Integer helpers: `IType` = signedness and width, result `none` = some intermediate value is not representable.
 
+`round` / `trunc` are the algorithms over mathematical integers; `roundM t` / `truncM t` are the same statements with the
+integer target type `t` explicit (values stored in an `I` variable are reduced as the type does) — what the driver executes.
+Section "The integer target type made explicit" ties the two together (`roundM_eq_round`, `truncM_eq_trunc`, `round_of_fits`,
+`trunc_of_fits_nonneg`) and proves what happens where a stored value wraps around: an unsigned type and an argument in (-1,0)
+(`trunc_unsigned_neg_up`, `round_unsigned_neg`), the ends of the range of unsigned and narrow types (`trunc_unsigned_top_down`,
+`trunc_narrow_bottom_up`, `trunc_snap_conversion`).
+
 Three layers carry the quantifier "for all pairs of values of a floating type":
 * the theorems over an arbitrary ordered field `K` (exact arithmetic: documented definitions, algebra, rounding laws);
 * the `rat_…` theorems: the functions the driver executes on exact inputs (`eqRat`, `roundRat`, … of Model/C17.lean,
@@ -540,6 +547,31 @@ theorem round_of_fits (t : IType) (hb : 0 < t.bits) (s : Style) (rs : RStyle) (t
     roundM t s rs tr x e = round s rs tr x e := by
   rw [roundM_eq_wrap s rs tr x e (IType.wrap_of_fits hb _ h0), IType.wrap_of_fits hb _ hr]
 
+/-- **`trunc` of a non-negative argument, every target type, the upper end of its range included**: if `I(val)` and the
+    mathematical result (the one `trunc_downward_spec` … `trunc_within` describe) are values of the type, it is returned.
+    `ha`: `lower+1` as an expression does not wrap — all types narrower than `int` (integral promotion), wider ones when
+    `I(val)+1` is a value of the type. -/
+theorem trunc_of_fits_nonneg (t : IType) (hb : 0 < t.bits) (s : Style) (rs : RStyle) {tr : K → Int} (htr : IsTrunc tr)
+    (x e : K) (hx : 0 ≤ x) (ha : t.bits < 32 ∨ t.fits (tr x + 1) = true) (h0 : t.fits (tr x) = true)
+    (hD : t.fits (trunc s (!t.signed) rs tr x e) = true) :
+    truncM t s rs tr x e = trunc s (!t.signed) rs tr x e := by
+  apply truncM_of_fits_nodec hb s rs e (not_lt.mpr ((htr x).1 hx).1) ?_ h0 hD
+  rcases ha with h | h
+  · simp [IType.arith, h]
+  · exact IType.arith_of_fits hb _ h
+
+/-- the lower end: where `I(val)` lies above `val` and is equal to it within epsilon the downward truncation returns it
+    without decrementing — `trunc<short,double,relativeWeak,downward>(-32768.00000000001)` is -32768 (it was 32767 before
+    fixes/C17_trunc_range_end.patch, `truncOld_range_end`) -/
+theorem trunc_snap_conversion (t : IType) (s : Style) (tr : K → Int) (x e : K)
+    (hz : t.signed = true ∨ eqS s x 0 e = false)
+    (hg : ((tr x : Int) : K) > x) (hE : eqS s ((tr x : Int) : K) x e = true) :
+    truncM t s .downward tr x e = tr x := by
+  apply truncDownM_snap_conversion s tr x e ?_ hg hE
+  rcases hz with h | h
+  · simp [h]
+  · simp [h]
+
 /-- the conversion `I(val)` of an argument in (-1,0) is 0 -/
 theorem tr_eq_zero_of_neg {tr : K → Int} (htr : IsTrunc tr) (x : K) (hx1 : -1 < x) (hx0 : x < 0) : tr x = 0 := by
   have h := (htr x).2 (le_of_lt hx0)
@@ -645,6 +677,93 @@ theorem trunc_unsigned_neg_up_doc (t : IType) (ht : t.signed = false) (hb : 0 < 
   have := not_le.mp hL
   linarith
 
+/-- **narrow signed target (`signed char`, `short`), argument just below its smallest value `m`, truncation upward / toward
+    zero: the result is `m`** (unless the argument is equal within epsilon to the integer `m-1` below it, which the type does
+    not have).  If the argument is equal to `m` within epsilon the repaired downward step returns `m` at once; otherwise the
+    decrement wraps around to the largest value `M`, `T(M+1)` and `T(M)` are far from the argument, and `++upper` wraps back. -/
+theorem trunc_narrow_bottom_up (t : IType) (hs : t.signed = true) (hn : t.bits < 32) (hb : 0 < t.bits) (s : Style)
+    (rs : RStyle) (hrs : rs = .upward ∨ rs = .towardZero) {tr : K → Int} (htr : IsTrunc tr) (x e : K)
+    (hx0 : ((t.lo : Int) : K) - 1 < x) (hx1 : x < ((t.lo : Int) : K))
+    (hL : eqS s (((t.lo - 1 : Int) : Int) : K) x e = false) :
+    truncM t s rs tr x e = t.lo := by
+  have hp : (1 : Int) ≤ 2 ^ (t.bits - 1) := Int.pow_pos (by decide)
+  have hlo : t.lo = -(2 ^ (t.bits - 1) : Int) := by simp [IType.lo, hs]
+  generalize hN : (2 ^ (t.bits - 1) : Int) = N at hp hlo
+  have hNK : (1 : K) ≤ (N : K) := by exact_mod_cast hp
+  rw [hlo] at hx0 hx1 hL ⊢
+  push_cast at hx0 hx1
+  have hxneg : x ≤ -1 := by linarith
+  -- I(val) is the smallest value
+  have htr0 : tr x = -N := by
+    have h := (htr x).2 (by linarith)
+    have a : (((-N - 1 : Int) : Int) : K) < ((tr x : Int) : K) := by push_cast; linarith
+    have b : ((tr x : Int) : K) < (((-N + 1 : Int) : Int) : K) := by push_cast; linarith
+    have := Int.cast_lt.mp a; have := Int.cast_lt.mp b; omega
+  have hgt : (((-N : Int) : Int) : K) > x := by push_cast; exact hx1
+  have hng : ¬ x > ((0 : Int) : K) := by push_cast; linarith
+  have hup : truncUpM t s tr x e = -N := by
+    cases hE : eqS s (((-N : Int) : Int) : K) x e
+    · -- not equal to the smallest value within epsilon: epsilon is below 1, the wrapped values are far away
+      have he : e < 1 := by
+        refine lt_one_of_not_eq_near s _ x e ?_ ?_ ?_ hL
+        · push_cast; rw [abs_of_neg (by linarith)]; linarith
+        · rw [abs_of_neg (by linarith)]; linarith
+        · push_cast; rw [abs_of_neg (by linarith)]; linarith
+      have hw1 : t.wrap (-N - 1) = N - 1 := by rw [← hN]; exact IType.wrap_lo_pred hs hn hb
+      have hw2 : t.wrap (N - 1 + 1) = -N := by rw [← hN]; exact IType.wrap_hi_succ hs hn hb
+      have hM : eqS s (((N - 1 : Int) : Int) : K) x e = false :=
+        eqS_opposite_false s _ x e (by push_cast; linarith) hxneg he
+      have hM1 : eqS s (((N - 1 + 1 : Int) : Int) : K) x e = false :=
+        eqS_opposite_false s _ x e (by push_cast; linarith) hxneg he
+      have hsame : sameVal ((((N - 1 : Int) : Int)) : K) x = false := by
+        rw [Bool.eq_false_iff, Ne, sameVal_iff]; intro h
+        have : (0 : K) ≤ (((N - 1 : Int) : Int) : K) := by push_cast; linarith
+        linarith
+      have hd : truncDownM t s tr x e = N - 1 := by
+        unfold truncDownM
+        simp only [hs, Bool.not_true, Bool.false_and, Bool.false_eq_true, if_false, htr0, hgt, decide_true, Bool.true_and,
+          hE, if_true, hw1, hsame, IType.arith, hn, hM1]
+      unfold truncUpM
+      simp only [hd, neS, Gen.ne, hM, Bool.not_false, if_true, hw2]
+    · have hd : truncDownM t s tr x e = -N := by
+        unfold truncDownM
+        simp only [hs, Bool.not_true, Bool.false_and, Bool.false_eq_true, if_false, htr0, hgt, decide_true, Bool.true_and,
+          hE, if_true]
+      unfold truncUpM
+      simp only [hd, neS, Gen.ne, hE, Bool.not_true, Bool.false_eq_true, if_false]
+  rcases hrs with h | h <;> subst h <;> simp only [truncM, hng, if_false, hup]
+
+/-- **`unsigned` / `unsigned long` target, argument between the largest value `M` and `M+1`, truncation downward / toward
+    zero: the result is `M`.**  `lower+1` wraps around to 0 in the expression `T(lower+1)`; the argument is not equal to 0
+    within epsilon (otherwise the unsigned special case returns 0), so the snap test fails and `lower = M` is returned. -/
+theorem trunc_unsigned_top_down (t : IType) (hu : t.signed = false) (hw : 32 ≤ t.bits) (s : Style) (rs : RStyle)
+    (hrs : rs = .downward ∨ rs = .towardZero) {tr : K → Int} (htr : IsTrunc tr) (x e : K)
+    (hx0 : ((t.hi : Int) : K) < x) (hx1 : x < ((t.hi : Int) : K) + 1) (hz : eqS s x 0 e = false) :
+    truncM t s rs tr x e = t.hi := by
+  have hp : (1 : Int) ≤ 2 ^ t.bits := Int.pow_pos (by decide)
+  have hhi : t.hi = 2 ^ t.bits - 1 := by simp [IType.hi, hu]
+  have hM0 : (0 : K) ≤ ((t.hi : Int) : K) := by rw [hhi]; exact_mod_cast (by omega : (0 : Int) ≤ 2 ^ t.bits - 1)
+  have hxpos : 0 < x := by linarith
+  have htr0 : tr x = t.hi := by
+    have h := (htr x).1 (le_of_lt hxpos)
+    have a : ((t.hi : Int) : K) < (((tr x + 1 : Int) : Int) : K) := by push_cast; linarith
+    have b : ((tr x : Int) : K) < (((t.hi + 1 : Int) : Int) : K) := by push_cast; linarith
+    have := Int.cast_lt.mp a; have := Int.cast_lt.mp b; omega
+  have hng : ¬ ((t.hi : Int) : K) > x := not_lt.mpr (le_of_lt hx0)
+  have hsame : sameVal ((t.hi : Int) : K) x = false := by
+    rw [Bool.eq_false_iff, Ne, sameVal_iff]; intro h; linarith
+  have hnw : ¬ t.bits < 32 := by omega
+  have har : t.arith (t.hi + 1) = 0 := by
+    rw [hhi]; simp only [IType.arith, hnw, if_false]; exact IType.wrap_pow hu
+  have hz0 : eqS s ((0 : Int) : K) x e = false := by rw [eqS_symm]; simpa using hz
+  have hz' : eqS s x ((0 : Int) : K) e = false := by simpa using hz
+  have hd : truncDownM t s tr x e = t.hi := by
+    unfold truncDownM
+    simp only [hu, hz', Bool.not_false, Bool.and_false, Bool.false_eq_true, if_false, htr0, hng, decide_false, Bool.false_and,
+      hsame, har, hz0]
+  have hgt : x > ((0 : Int) : K) := by push_cast; exact hxpos
+  rcases hrs with h | h <;> subst h <;> simp only [truncM, hgt, if_true, hd]
+
 /-- unsigned target, argument in (-1,0): `round` returns 0 where the mathematical result is 0, and the largest value
     of the type where it is -1 (the nearest integer is then not a value of the type) -/
 theorem round_unsigned_neg (t : IType) (ht : t.signed = false) (hb : 0 < t.bits) (s : Style) (rs : RStyle)
@@ -692,6 +811,13 @@ theorem roundOld_range_end :
     roundM uint8 .absolute .downward Dy.trunc (Dy.mk2 1021 (-2)) (Dy.mk2 1 (-10)) = 255 ∧
     roundDownOldM int8 .absolute Dy.trunc (Dy.mk2 509 (-2)) (Dy.mk2 1 (-10)) = -128 ∧
     roundM int8 .absolute .downward Dy.trunc (Dy.mk2 509 (-2)) (Dy.mk2 1 (-10)) = 127 := by decide
+
+/-- the defect repaired by fixes/C17_trunc_range_end.patch on a concrete input: -32768.5 truncated downward to `short`
+    with the relative-strong epsilon 2^-13 (tolerance 4) is equal to -32768 within epsilon; the unrepaired algorithm
+    decremented first, wrapped around to 32767 and returned it -/
+theorem truncOld_range_end :
+    truncDownOldM int16 .relativeStrong Dy.trunc (Dy.mk2 (-65537) (-1)) (Dy.mk2 1 (-13)) = 32767 ∧
+    truncM int16 .relativeStrong .downward Dy.trunc (Dy.mk2 (-65537) (-1)) (Dy.mk2 1 (-13)) = -32768 := by decide
 
 -- outside the property: -1/2 truncated upward to `unsigned char` with the relative-strong epsilon 1024 is 1 (`T(lower+1)` =
 -- T(256) is "equal" to -1/2, `return lower+1` converts 256 to 0, `ne(0, val)` holds, `++upper`).  The documented result
@@ -792,6 +918,11 @@ theorem rat_round_unsigned_neg (t : IType) (ht : t.signed = false) (hb : 0 < t.b
     (roundRat s rs x e = 0 ∧ roundRatM t s rs x e = 0) ∨
     (roundRat s rs x e = -1 ∧ roundRatM t s rs x e = 2 ^ t.bits - 1) :=
   round_unsigned_neg t ht hb s rs trRat_isTrunc x e h0 hx1 hx0
+theorem rat_trunc_of_fits_nonneg (t : IType) (hb : 0 < t.bits) (s : Style) (rs : RStyle) (x e : ℚ) (hx : 0 ≤ x)
+    (ha : t.bits < 32 ∨ t.fits (trRat x + 1) = true) (h0 : t.fits (trRat x) = true)
+    (hD : t.fits (truncRat s (!t.signed) rs x e) = true) :
+    truncRatM t s rs x e = truncRat s (!t.signed) rs x e :=
+  trunc_of_fits_nonneg t hb s rs trRat_isTrunc x e hx ha h0 hD
 /-- the op line `round` for every target type: a representable mathematical result is returned (range ends included) -/
 theorem rat_round_of_fits (t : IType) (hb : 0 < t.bits) (s : Style) (rs : RStyle) (x e : ℚ)
     (h0 : t.fits (trRat x) = true) (hr : t.fits (roundRat s rs x e) = true) :
@@ -912,6 +1043,14 @@ theorem fp_round_of_fits (t : IType) (hb : 0 < t.bits) (s : Style) (rs : RStyle)
     (h0 : t.fits (FP.trunc x) = true) (hr : t.fits (round s rs FP.trunc x e) = true) :
     roundM t s rs FP.trunc x e = round s rs FP.trunc x e := by
   rw [roundM_eq_wrap s rs FP.trunc x e (IType.wrap_of_fits hb _ h0), IType.wrap_of_fits hb _ hr]
+
+/-- … and so does `trunc` wherever `lower` is not decremented (`T(I(val))` is not above `val`) and the expression `lower+1`
+    does not wrap — in particular at the upper end of the range of the narrow types -/
+theorem fp_trunc_of_fits_nodec (t : IType) (hb : 0 < t.bits) (s : Style) (rs : RStyle) (x e : FP f)
+    (hnd : ¬ ((FP.trunc x : Int) : FP f) > x) (ha : t.arith (FP.trunc x + 1) = FP.trunc x + 1)
+    (h0 : t.fits (FP.trunc x) = true) (hD : t.fits (trunc s (!t.signed) rs FP.trunc x e) = true) :
+    truncM t s rs FP.trunc x e = trunc s (!t.signed) rs FP.trunc x e :=
+  truncM_of_fits_nodec hb s rs e hnd ha h0 hD
 
 end floating
 
